@@ -138,12 +138,32 @@ def limit_guards(ctx, L):
     n = 0
     for q, kind in cases:
         f = cont.func(q)
-        guards = [s for s in f.walk() if isinstance(s, ast.If) and '_max_len' in unparse(s.test) and terminates(s.body)
-                  and isinstance(s.body[-1], ast.Raise) and 'ProphyError' in unparse(s.body[-1])]
-        if len(guards) != 1:
-            L.bad('C10b.limit-guard', q + '|present', f.site(), 'the mutator has no (single) limit guard raising ProphyError', ws(unparse(f.node))[:200])
+        # the rejection predicate: OR over the ProphyError raises whose path condition mentions the limit of the
+        # conjunction of their branch conditions, locals substituted by their single reaching definition
+        raises = []
+        for r in f.walk():
+            if isinstance(r, ast.Raise) and r.exc is not None and 'ProphyError' in unparse(r.exc):
+                conds = [(t, pol) for t, pol, how in path_conditions(f.module, f, r) if how in ('branch', 'short-circuit')]
+                if any('_max_len' in unparse(t) for t, _ in conds):
+                    raises.append((r, conds))
+        if not raises:
+            L.bad('C10b.limit-guard', q + '|present', f.site(), 'the mutator has no limit guard raising ProphyError', ws(unparse(f.node))[:200])
             continue
-        g = guards[0]
+        defs = {}
+        multi = set()
+        for a_ in f.walk():
+            if isinstance(a_, ast.Assign) and len(a_.targets) == 1 and isinstance(a_.targets[0], ast.Name):
+                nm = a_.targets[0].id
+                if nm in defs:
+                    multi.add(nm)
+                defs[nm] = a_.value
+        for nm in multi:
+            defs.pop(nm, None)
+        g = raises[0][0]
+
+        class _G(object):
+            test = None
+        gsrc = ' OR '.join(' and '.join(('' if pol else 'not ') + '(' + ws(unparse(t)) + ')' for t, pol in conds) for _, conds in raises)
         bad = []
         for max_len in (0, 3):
             for cur in range(0, 4):
@@ -155,9 +175,9 @@ def limit_guards(ctx, L):
                                         [(None, None), (0, 1), (1, 2), (0, 10), (2, 10), (5, 9), (1, None), (None, 2), (-1, None), (-2, -1)]):
                         env = {'self._max_len': max_len, 'len(self)': cur, 'self._values': vals, 'self': vals,
                                'values': list(range(added)), 'elem_seq': list(range(added)), 'value': 0,
-                               'start': start, 'stop': stop}
+                               'start': start, 'stop': stop, '__defs__': defs}
                         try:
-                            got = bool(miniev.ev(g.test, env))
+                            got = any(all(bool(miniev.ev(t, env)) == pol for t, pol in conds) for _, conds in raises)
                         except miniev.Unknown as e:
                             raise AnalysisError('%s: limit guard term not recognised: %s' % (q, e))
                         removed = len(vals[start:stop]) if kind == 'slice' else 0
@@ -170,7 +190,7 @@ def limit_guards(ctx, L):
                                 'exceeded' if want else 'respected'))
         L.check(not bad, 'C10b.limit-guard', q + '|truth-set', f.site(g),
                 'the limit guard `%s` does not reject exactly the operations that would exceed the limit: %s'
-                % (ws(unparse(g.test)), '; '.join(bad[:4])), ws(unparse(g.test)))
+                % (gsrc, '; '.join(bad[:4])), gsrc)
     L.floor('C10b.limit-guard-evaluations', n, 100)
 
 
